@@ -52,6 +52,7 @@ CHECKS = {
         "tests": [
             {"name": "TestC15Cache", "checks": [3000, 80000], "shards": [2, 16], "floor": 0.65},
             {"name": "TestC15Short", "enum": True},
+            {"name": "TestC15Library", "enum": True},
             {"name": "TestC15Files", "checks": [400, 20000], "shards": [1, 8], "floor": 0.5},
             K,
         ],
